@@ -59,6 +59,8 @@ pub struct Runner {
     pub notes: Vec<String>,
     pub known: Vec<Known>,
     pub rule: String,
+    /// order-independent digests of the explored graphs (C19 compares them across builds)
+    pub graph_digests: Vec<Value>,
 }
 
 impl Runner {
@@ -89,6 +91,7 @@ impl Runner {
             notes: vec![],
             known: load_known(),
             rule: String::new(),
+            graph_digests: vec![],
         }
     }
 
@@ -117,6 +120,9 @@ impl Runner {
                 self.samples.push(json!({"scenario": sc.name, "seed": seed, "path": path}));
             }
         }
+        self.graph_digests.push(json!({"scenario": sc.name, "states": rep.states, "transitions": rep.transitions,
+            "state_xor": format!("{:032x}", rep.state_acc.0), "state_sum": format!("{:032x}", rep.state_acc.1),
+            "transition_xor": format!("{:032x}", rep.trans_acc.0), "transition_sum": format!("{:032x}", rep.trans_acc.1)}));
         let ok_actions = rep.tags.iter().filter(|(k, _)| k.ends_with(":ok")).count();
         self.runs.push(json!({
             "scenario": sc.name, "build": self.build, "seeds": sc.seeds.iter().map(|s| s.0.clone()).collect::<Vec<_>>(),
@@ -223,6 +229,7 @@ impl Runner {
                 "runs": self.runs,
                 "known_findings_hit": self.known_hits.iter().map(|v| v.key.clone()).collect::<Vec<_>>(),
                 "notes": self.notes,
+                "graph_digests": self.graph_digests,
             },
             "assumptions": self.assumptions,
             "wall_s": self.t0.elapsed().as_secs_f64(),
